@@ -887,3 +887,37 @@ PRESERVING += [
                                                              "            except AssemblerError:\n                return False\n")]),
     ('p5-immequals-except-exception', None, [(A, _IMMEQ_BODY, _IMMEQ_BODY.replace('except AssemblerError:', 'except Exception:'))]),
 ]
+
+# ---- round 5: a pass written as list(<generator function>(...)) is analysed as the eager loop it equals ----
+_RS_OLD = ("def resolve_strings(items):\n    new_items = []\n    for item in items:\n        if not isinstance(item, String):\n            new_items.append(item)\n            continue\n\n"
+           "        blob = Blob(item.line, item.value.encode('utf-8'))\n        new_items.append(blob)\n\n        log_conversion('resolve_strings', item, blob)\n\n    return new_items\n")
+
+
+def _rs_gen(keep="            yield item\n", enc="'utf-8'", call="list(iter_resolved_strings(items))"):
+    return ("def iter_resolved_strings(items):\n    for item in items:\n        if not isinstance(item, String):\n" + keep + "            continue\n\n"
+            "        blob = Blob(item.line, item.value.encode(" + enc + "))\n        yield blob\n\n        log_conversion('resolve_strings', item, blob)\n\n\n"
+            "def resolve_strings(items):\n    return " + call + "\n")
+
+
+PRESERVING += [
+    ('p5-generator-pass', None, [(A, _RS_OLD, _rs_gen())]),
+    ('p5-generator-pass-star', ['C03', 'C06', 'C08', 'C09', 'C10', 'C14', 'C15', 'C20'], [(A, _RS_OLD, _rs_gen(call="[*iter_resolved_strings(items)]"))]),
+    ('p5-generator-pass-keyword', ['C03', 'C06', 'C08', 'C09', 'C10', 'C14', 'C15', 'C20'], [(A, _RS_OLD, _rs_gen(call="list(iter_resolved_strings(items=items))"))]),
+]
+BREAKING += [
+    ('c5-generator-pass-drops-items', ['C09'], [(A, _RS_OLD, _rs_gen(keep="            pass\n"))]),
+    ('c5-generator-pass-codec', ['C10'], [(A, _RS_OLD, _rs_gen(enc="'utf-16'"))]),
+]
+
+# ---- round 5: a family of partial bindings produced by a comprehension and unpacked into names ----
+_M_OLD = "".join("{:<10} = partial(r_type,   opcode=0b0110011, funct3=0b{:03b}, funct7=0b0000001)\n".format(n, k)
+                 for k, n in enumerate(['MUL', 'MULH', 'MULHSU', 'MULHU', 'DIV', 'DIVU', 'REM', 'REMU']))
+_M_GEN = ("MUL, MULH, MULHSU, MULHU, DIV, DIVU, REM, REMU = (\n    partial(r_type,   opcode=0b0110011, funct3=funct3, funct7=0b0000001)\n    for funct3 in range(0b1000)\n)\n")
+PRESERVING += [
+    ('p5-partials-from-generator', None, [(A, _M_OLD, _M_GEN)]),
+    ('p5-partials-from-listcomp', ['C01', 'C06', 'C07', 'C11', 'C13'], [(A, _M_OLD, _M_GEN.replace('= (\n', '= [\n').replace('\n)\n', '\n]\n').replace('range(0b1000)', '(0, 1, 2, 3, 4, 5, 6, 7)'))]),
+]
+BREAKING += [
+    ('c5-partials-from-generator-order', ['C01'], [(A, _M_OLD, _M_GEN.replace('MULHSU, MULHU', 'MULHU, MULHSU'))]),
+    ('c5-partials-from-generator-range', ['C01'], [(A, _M_OLD, _M_GEN.replace('range(0b1000)', 'range(1, 9)'))]),
+]
